@@ -1,7 +1,7 @@
 SPECIFICATION Spec
 CONSTANTS
   Sigma = {0, 1, 2, 63, 64, 192, 12, 97}
-  MaxBody = 7
+  MaxBody = 6
   HopLimit = 10
   Start = 12
 INVARIANTS Inv_C01_InBounds Inv_C01_NameFits
